@@ -21,8 +21,8 @@ type safetyRun struct {
 	rule   string // rule prefix, e.g. "C10"
 	entry  *ssa.Function
 	gcache map[string][][]*flow.Term
-	label  string // partition label appended to obligation keys
-	kinds  map[string]bool // nil: every obligation kind; otherwise only these
+	label  string                 // partition label appended to obligation keys
+	kinds  map[string]bool        // nil: every obligation kind; otherwise only these
 	altCtx map[string][]*flow.Ctx // per facts alternative: the context that binds callee choices
 	// counters
 	n map[string]int
